@@ -826,7 +826,8 @@ func (c *kase) stallPhase() {
 			// concurrent Waiter may see "done" (nil) instead of its own timeout: it still
 			// returned "after the configured timeout".
 			c.count("wait_nil_released_by_other_waiters_timeout", 1)
-		case !w.prefetchEnded:
+		case !w.prefetchEnded && !blocked:
+			// (only judged for Waiters that returned while the stall was still held)
 			// Slack: with an async threshold the waiter is released early on purpose; without
 			// one (threshold 0) and with no Waiter having timed out, nil means "prefetch
 			// ended", which it cannot have: its request is still stalled.
